@@ -342,7 +342,8 @@ pub fn spec_strategy() -> impl Strategy<Value = SecretSpec> {
     (
         0u8..NUM_KINDS,
         label_strategy(),
-        proptest::collection::vec("[a-z]{1,5}", 0..3),
+        // tags: mostly short words; now and then an empty, blank or punctuated one
+        proptest::collection::vec(prop_oneof![10 => "[a-z]{1,5}", 1 => Just(String::new()), 1 => Just(" ".to_string()), 1 => "[ -~]{1,8}"], 0..3),
         any::<bool>(),
         text_strategy(),
         text_strategy(),
